@@ -117,9 +117,9 @@ TEXT = {
         "level": "Kernel-checked for all status vectors, peer sets, advertised sets and ALL shuffle outcomes (any permutation of the candidate list): a pick is "
                  "eligible and of minimal availability among eligible pieces (T1); none is picked iff nothing is eligible (T2); END_GAME_LIMIT = 10 from the "
                  "generated constant. The implementation's random answers (8 per state) are checked for membership in the proved admissible set. "
-                 "These theorems cover choose_piece_index, through which every pick goes except the one of the Have path (Peer::handle_have), for which "
-                 "the property is REFUTED (have_path_pick_not_rarest, kernel-evaluated witness; recorded known finding C13-have-path-pick-ignores-rarity); "
-                 "every pick of the manager histories, the Have path included, is judged by the same `admissible`.",
+                 "T4: on every path on which the manager hands out a request (Unchoke, Have, piece stored, piece cancelled) the piece is the chooser's "
+                 "answer, so T1/T2 cover every pick (the Have path did not consult the chooser on the unchanged tree: refuted by "
+                 "old_have_path_pick_not_rarest, found, repaired in /repo); every pick of the manager histories is judged by the same `admissible`.",
         "note": KERNEL + "the model's own insertion sort stands for slice::sort_by (only sortedness+permutation are used in the proof); shuffle = arbitrary permutation.",
         "technique": "Lean 4 proof (decision logic over all permutations; sortedness + permutation lemmas) + admissibility check of the implementation's answers",
     },
